@@ -105,6 +105,23 @@ CLAIMED['C16'] = dict(
          '(30 phrases, length 40) are far beyond it. ' + NOTE_COMMON,
     design='§5/C16')
 
+CLAIMED['C10'] = dict(
+    technique='bounded symbolic execution (symx + z3) of the real duration parser (symbolic N), the two-endpoint date range parser (symbolic endpoints) and luis_time_span',
+    text=SX + "'N <unit>' runs through BaseDurationParser.parse and the resolution builder for every unit word with N symbolic in 1..5000 (TIMEX P[T]N<U>, value N x unit seconds). "
+         'A range between two absolute dates runs through BaseDatePeriodParser.parse with the start day number (1900..2088) and the gap (1..4000 days) symbolic: '
+         'resolved start/end must be exactly the endpoints and the TIMEX (start,end,PnD) must satisfy end - start = n. luis_time_span is checked on symbolic instants.',
+    note='Inner number/date extractors and parsers are stubs feeding symbolic values; fractional amounts, time and date-time ranges and the Specs-corpus clause are outside. '
+         'Defect F10 (Feb-29 year synchronisation applied to explicit-year ranges) was found by O10.4 and repaired. ' + NOTE_COMMON,
+    design='§5/C10')
+CLAIMED['C11'] = dict(
+    technique='bounded symbolic execution (symx + z3) of the real resolution builder and validity guards; date/time end-to-end clauses shared with C06/C07',
+    text=SX + 'set_parse_result/_date_time_resolution and helpers run on resolution dictionaries rendered by the real formatters from symbolic datetimes, one slice per '
+         '(type, modifier, validity pattern): values have the promised shape, the type name equals the value type, min-value sides never appear, nothing valid gives exactly '
+         'one "not resolved", past precedes future. safe_create_from_min_value / is_valid_date / is_valid_time are checked on symbolic fields incl. out-of-range ones.',
+    note='The per-type parsers are represented by the dictionaries they hand over. Non-existent input dates -> "not resolved" and definite TIMEX = value are decided end to end '
+         'for dates by C06 O6.2 and for times by C07. Corpus clause, set/timezone types and holiday tables are outside. ' + NOTE_COMMON,
+    design='§5/C11')
+
 NOT_APPLICABLE = {
     'C18': 'ground equality of ~50 concrete generated files against concrete YAML: no quantified variable for a solver to range over; '
            'deciding it is executing the generator (whose dependency ruamel.yaml is absent from every usable interpreter)',
